@@ -741,11 +741,214 @@ def render_annotations(repo):
 
 
 # ---------------------------------------------------------------------------------------------------------
+# B / C. which trait methods each builder / reader overrides
+# ---------------------------------------------------------------------------------------------------------
+
+def classify_default(body, where):
+    """default body of a trait method:
+       reject   `fail!(in self, "message")`            detail = the message (as written, trailing blanks included)
+       forward  `self.<method>(args)`                   detail = <method>
+       other    anything else                           detail = the body with whitespace normalised"""
+    b = ws(body).rstrip(";").strip()
+    m = re.fullmatch(r'fail!\(\s*in self,\s*("(?:[^"\\]|\\.)*")\s*,?\s*\)', b)
+    if m:
+        return "reject", str_lit(m.group(1), where)
+    m = re.fullmatch(r"self\.(\w+)\(([^()]*)\)", b)
+    if m:
+        return "forward", m.group(1)
+    if "fail!" in b and not b.startswith("try_"):
+        _fail(f"{where}: a default body that fails in an unknown way: `{b}`")
+    return "other", b
+
+
+def parse_trait(path, src, trait):
+    m = re.search(r"\bpub\s+trait\s+" + trait + r"\b[^{;]*\{", src)
+    if not m:
+        _fail(f"{path}: `pub trait {trait}` not found")
+    body = src[m.end():match_close(src, m.end() - 1)]
+    rows = []
+    for name, (params, fbody) in find_fns(body, f"{path}: trait {trait}").items():
+        if fbody is None:
+            rows.append((name, "required", ""))
+        else:
+            kind, detail = classify_default(fbody, f"{path}: trait {trait}: fn {name}")
+            rows.append((name, kind, detail))
+    if not rows:
+        _fail(f"{path}: trait {trait} has no methods")
+    return rows
+
+
+def parse_forwarders(path, src, trait, target, receiver):
+    """`impl … <trait> for <target>`: every fn body must call exactly one `<receiver>.<method>(…)`:
+    [(fn, method)] — the wiring between the serde trait and the crate's own trait"""
+    imps = [i for i in find_impls(path, src, trait) if i.base == target]
+    if len(imps) != 1:
+        _fail(f"{path}: expected exactly one `impl {trait} for {target}`, found {len(imps)}")
+    rows = []
+    for name, (params, body) in find_fns(imps[0].body, f"{path}: impl {trait} for {target}").items():
+        calls = re.findall(re.escape(receiver) + r"\s*\.\s*(\w+)\s*\(", body or "")
+        if len(calls) != 1:
+            _fail(f"{path}: impl {trait} for {target}: fn {name} does not forward to exactly one `{receiver}.<method>(…)` ({calls})")
+        rows.append((name, calls[0]))
+    return rows
+
+
+def parse_overrides(side_dir, trait, trait_methods, enum_name):
+    """every `impl … <trait> for X` in the directory: (file, written type, base, inst, [overridden methods]);
+    for the enum wrapper additionally the method each fn dispatches to"""
+    known = {n for n, _, _ in trait_methods}
+    rows, enum_forward = [], None
+    for f in sorted(glob.glob(os.path.join(side_dir, "*.rs"))):
+        file = os.path.join(os.path.basename(side_dir), os.path.basename(f))
+        src = blank_comments(_read(f))
+        for imp in find_impls(file, src, trait):
+            where = f"{file}: impl {trait} for {imp.written}"
+            fns = find_fns(imp.body, where)
+            for n, (_, body) in fns.items():
+                if n not in known:
+                    _fail(f"{where}: fn {n} is not a method of the trait")
+                if body is None:
+                    _fail(f"{where}: fn {n} without body")
+            if imp.args and not all(a in imp.params for a in imp.args) and any(a in imp.params for a in imp.args):
+                _fail(f"{where}: partly generic, partly concrete type arguments")
+            inst = "" if all(a in imp.params for a in imp.args) else ", ".join(imp.args)
+            rows.append((file, imp.written, imp.base, inst, list(fns)))
+            if imp.base == enum_name:
+                enum_forward = []
+                for n, (_, body) in fns.items():
+                    dm = re.fullmatch(r"dispatch!\(self, (?:Self|\w+)\((\w+)\) => \1\.(\w+)\(.*\)\);?", ws(body), flags=re.S)
+                    if not dm:
+                        _fail(f"{where}: fn {n} is not `dispatch!(self, Self(x) => x.<method>(…))`: `{ws(body)}`")
+                    enum_forward.append((n, dm.group(2)))
+    if enum_forward is None:
+        _fail(f"{side_dir}: no `impl {trait} for {enum_name}` found")
+    return rows, enum_forward
+
+
+def _arms(where, ctor_rows, variants, impls):
+    """per arm of the constructor function: (ctor, [(variant, type, type arguments, index of its impl in `impls`)])"""
+    vmap = {v: (b, a) for v, b, a in variants}
+    out = []
+    for ctor, vs in ctor_rows:
+        row = []
+        for v in vs:
+            base, arg = vmap[v]
+            ks = [k for k, (_, _, b, inst, _) in enumerate(impls) if b == base and inst in ("", arg)]
+            if len(ks) != 1:
+                _fail(f"{where}: variant {v} ({base}<{arg}>) has {len(ks)} impls of the trait, expected exactly one")
+            row.append((v, base, arg, ks[0]))
+        out.append((ctor, row))
+    return out
+
+
+def _render_matrix(ns, header, trait_doc, trait_methods, impls_doc, impls, extra):
+    out = list(header)
+    out.append(f"namespace SaModel.Generated.{ns}")
+    out.append("")
+    out.append(trait_doc)
+    out.append(f"def traitMethods : List (String × String × String) := {llist([f'({lstr(a)}, {lstr(b)}, {lstr(c)})' for a, b, c in trait_methods])}")
+    out.append("")
+    out.append("structure Impl where")
+    out.append("  file : String")
+    out.append("  rustType : String")
+    out.append("  base : String")
+    out.append("  inst : String")
+    out.append("  methods : List String")
+    out.append("  idx : List Nat")
+    out.append("deriving Repr, DecidableEq")
+    out.append("")
+    out.append(impls_doc)
+    pos = {n: k for k, (n, _, _) in enumerate(trait_methods)}
+    items = ["{ file := %s, rustType := %s, base := %s, inst := %s,\n      methods := %s,\n      idx := [%s] }" % (
+                 lstr(f), lstr(w), lstr(b), lstr(i), lstrs(ms), ", ".join(str(pos[m]) for m in ms))
+             for f, w, b, i, ms in impls]
+    out.append(f"def impls : List Impl := {llist(items)}")
+    out.append("")
+    for doc, name, ty, rows in extra:
+        out.append(doc)
+        out.append(f"def {name} : {ty} := {llist(rows)}")
+        out.append("")
+    out.append(f"end SaModel.Generated.{ns}")
+    return "\n".join(out) + "\n"
+
+
+def render_accept_matrix(repo):
+    d = os.path.join(repo, "serde_arrow", "src", "internal", "serialization")
+    path = "serialization/simple_serializer.rs"
+    src = blank_comments(_read(os.path.join(d, "simple_serializer.rs")))
+    tm = parse_trait(path, src, "SimpleSerializer")
+    if len(tm) < 30:
+        _fail(f"{path}: only {len(tm)} methods in trait SimpleSerializer")
+    impls, enum_forward = parse_overrides(d, "SimpleSerializer", tm, "ArrayBuilder")
+    ab_src = blank_comments(_read(os.path.join(d, "array_builder.rs")))
+    bvars = parse_enum("serialization/array_builder.rs", ab_src, "ArrayBuilder")
+    osb_src = blank_comments(_read(os.path.join(d, "outer_sequence_builder.rs")))
+    bctor = parse_constructor("serialization/outer_sequence_builder.rs", osb_src, r"\bfn\s+build_builder\s*\(",
+                              r"&field\.data_type", ["T", "DataType"], ["A", "ArrayBuilder"], bvars)
+    arms = _arms("serialization", bctor, bvars, impls)
+    serde = parse_forwarders(path, src, "Serializer", "Mut", "self.0")
+    compound = []
+    for t in ("SerializeMap", "SerializeSeq", "SerializeStruct", "SerializeTuple", "SerializeTupleStruct",
+              "SerializeStructVariant", "SerializeTupleVariant"):
+        compound += [(t, a, b) for a, b in parse_forwarders(path, src, t, "Mut", "self.0")]
+    header = ["-- generated by translator/tables2.py from serde_arrow/src/internal/serialization/*.rs — do not edit;",
+              "-- ./check regenerates this file from the repository before every build"]
+    return _render_matrix(
+        "AcceptMatrix", header,
+        "/-- `pub trait SimpleSerializer`: (method, kind of the default body, detail).  `reject`: `fail!(in self, \"message\")`,\ndetail = the message as written; `forward`: `self.<detail>(…)`; `other`: detail = the body -/",
+        tm,
+        "/-- every `impl … SimpleSerializer for X` in internal/serialization/*.rs with the methods it overrides, in source order.\n`inst`: the concrete type argument when the impl is for one instantiation (`FloatBuilder<f16>`), else \"\";\n`idx`: the positions of `methods` in `traitMethods` -/",
+        impls,
+        [("/-- `build_builder`: per arm `T::<DataType constructor>` the variants it builds: (variant, type, type arguments,\nposition in `impls` of the impl of that type) -/",
+          "arms", "List (String × List (String × String × String × Nat))",
+          [f"({lstr(c)}, [{', '.join(f'({lstr(v)}, {lstr(b)}, {lstr(a)}, {k})' for v, b, a, k in row)}])" for c, row in arms]),
+         ("/-- `impl SimpleSerializer for ArrayBuilder`: each fn is `dispatch!(self, Self(b) => b.<method>(…))`: (fn, method) -/",
+          "enumForward", "List (String × String)", [f"({lstr(a)}, {lstr(b)})" for a, b in enum_forward]),
+         ("/-- `impl Serializer for Mut<T>`: (serde method, the `SimpleSerializer` method it calls on `self.0`) -/",
+          "serdeEntry", "List (String × String)", [f"({lstr(a)}, {lstr(b)})" for a, b in serde]),
+         ("/-- `impl Serialize{Map,Seq,…} for Mut<T>`: (serde trait, its method, the `SimpleSerializer` method called) -/",
+          "serdeCompound", "List (String × String × String)", [f"({lstr(a)}, {lstr(b)}, {lstr(c)})" for a, b, c in compound])])
+
+
+def render_reader_matrix(repo):
+    d = os.path.join(repo, "serde_arrow", "src", "internal", "deserialization")
+    path = "deserialization/random_access_deserializer.rs"
+    src = blank_comments(_read(os.path.join(d, "random_access_deserializer.rs")))
+    tm = parse_trait(path, src, "RandomAccessDeserializer")
+    if len(tm) < 30:
+        _fail(f"{path}: only {len(tm)} methods in trait RandomAccessDeserializer")
+    impls, enum_forward = parse_overrides(d, "RandomAccessDeserializer", tm, "ArrayDeserializer")
+    ad_src = blank_comments(_read(os.path.join(d, "array_deserializer.rs")))
+    rvars = parse_enum("deserialization/array_deserializer.rs", ad_src, "ArrayDeserializer")
+    rctor = parse_constructor("deserialization/array_deserializer.rs", ad_src, r"\bpub\s+fn\s+new\s*\(",
+                              r"array", ["V", "View"], ["D", "Self", "ArrayDeserializer"], rvars)
+    arms = _arms("deserialization", rctor, rvars, impls)
+    serde = parse_forwarders(path, src, "Deserializer", "PositionedDeserializer", "self.0")
+    header = ["-- generated by translator/tables2.py from serde_arrow/src/internal/deserialization/*.rs — do not edit;",
+              "-- ./check regenerates this file from the repository before every build"]
+    return _render_matrix(
+        "ReaderMatrix", header,
+        "/-- `pub trait RandomAccessDeserializer`: (method, kind of the default body, detail).  `reject`: `fail!(in self, \"message\")`;\n`forward`: `self.<detail>(…)`; `other`: detail = the body (the derived `deserialize_any` / `deserialize_option`, `at`,\nthe transparent `deserialize_newtype_struct`) -/",
+        tm,
+        "/-- every `impl … RandomAccessDeserializer for X` in internal/deserialization/*.rs with the methods it overrides;\n`idx`: the positions of `methods` in `traitMethods` -/",
+        impls,
+        [("/-- `ArrayDeserializer::new`: per arm `V::<View constructor>` the variants it builds: (variant, type, type arguments,\nposition in `impls` of the impl of that type) -/",
+          "arms", "List (String × List (String × String × String × Nat))",
+          [f"({lstr(c)}, [{', '.join(f'({lstr(v)}, {lstr(b)}, {lstr(a)}, {k})' for v, b, a, k in row)}])" for c, row in arms]),
+         ("/-- `impl RandomAccessDeserializer for ArrayDeserializer`: each fn is `dispatch!(self, Self(d) => d.<method>(…))` -/",
+          "enumForward", "List (String × String)", [f"({lstr(a)}, {lstr(b)})" for a, b in enum_forward]),
+         ("/-- `impl Deserializer for PositionedDeserializer<D>`: (serde method, the trait method it calls on `self.0`) -/",
+          "serdeEntry", "List (String × String)", [f"({lstr(a)}, {lstr(b)})" for a, b in serde])])
+
+
+# ---------------------------------------------------------------------------------------------------------
 # entry point
 # ---------------------------------------------------------------------------------------------------------
 
 TABLES = [
     ("Annotations.lean", render_annotations),
+    ("AcceptMatrix.lean", render_accept_matrix),
+    ("ReaderMatrix.lean", render_reader_matrix),
 ]
 
 
